@@ -62,3 +62,28 @@ def gen_sstable(items):
         g = re.search(r'if\s+let\s+\(\s*Some\((\w+)\)\s*,\s*Some\((\w+)\)\s*\)\s*=\s*\(\s*first_block_id\s*,\s*last_block_id\s*\)\s*\{\s*if\s+\1\s*>\s*\2\s*\{\s*return\s+FileSlice::empty\(\)\s*;', body)
         return D('RANGE_INVERTED_GUARD', 1 if g else 0, 'file_slice_for_range: `first_block_id > last_block_id => return FileSlice::empty()` present (1) or absent (0)')
     items.append(inverted_guard)
+
+    def separator_assert():
+        # find_shorter_str_in_between asserts `left < right`: the only order check for the first key of
+        # a block (previous_key is cleared when a block is flushed)
+        body = fn_body('sstable/src/index/mod.rs', 'find_shorter_str_in_between')
+        g = re.search(r'assert!\(\s*&left\[\.\.\]\s*<\s*right\s*\)\s*;', body)
+        return D('SEPARATOR_ASSERT', 1 if g else 0, 'find_shorter_str_in_between: `assert!(&left[..] < right)` present (1) or absent (0)')
+    items.append(separator_assert)
+
+    def separator_call():
+        # Writer::insert_key shortens the last block's key (and thereby runs the assert) for the first key of
+        # every block, and SSTableIndexBuilder passes the stored last key of the last block
+        body = fn_body('sstable/src/lib.rs', 'insert_key')
+        g1 = re.search(r'if\s+self\.first_ordinal_of_the_block\s*==\s*self\.num_terms\s*\{\s*self\.index_builder\s*\.shorten_last_block_key_given_next_key\(\s*key\s*\)\s*;\s*\}', body)
+        b2 = fn_body('sstable/src/index/mod.rs', 'shorten_last_block_key_given_next_key')
+        g2 = re.search(r'if\s+let\s+Some\(last_block\)\s*=\s*self\.blocks\.last_mut\(\)\s*\{\s*find_shorter_str_in_between\(\s*&mut\s+last_block\.last_key_or_greater\s*,\s*next_key\s*\)\s*;', b2)
+        return D('SEPARATOR_CHECK_AT_BLOCK_START', 1 if (g1 and g2) else 0, 'insert_key: first key of a block => shorten_last_block_key_given_next_key(key) => find_shorter_str_in_between(last key, key)')
+    items.append(separator_call)
+
+    def increasing_assert():
+        body = fn_body('sstable/src/lib.rs', 'insert_key')
+        g1 = re.search(r'let\s+increasing_keys\s*=\s*add_len\s*>\s*0\s*&&\s*\(\s*self\.previous_key\.len\(\)\s*==\s*keep_len\s*\)\s*\|\|\s*self\.previous_key\.is_empty\(\)\s*\|\|\s*self\.previous_key\[keep_len\]\s*<\s*key\[keep_len\]\s*;', body)
+        g2 = re.search(r'assert!\(\s*increasing_keys\s*,', body)
+        return D('INCREASING_KEYS_ASSERT', 1 if (g1 and g2) else 0, 'insert_key: the increasing_keys expression has the modelled shape and is asserted')
+    items.append(increasing_assert)
